@@ -19,7 +19,7 @@ import (
 )
 
 type params struct {
-	Mode   string // live | resume
+	Mode   string // live | resume | cut
 	Window int
 	Msgs   int
 	Queue  int // session queue capacity (0 = 32); 1 makes the subscribers' queues fill up, so that publishes wait for room
@@ -33,6 +33,8 @@ func init() {
 		return func(x *explore.X) {
 			if pr.Mode == "live" {
 				live(x, pr)
+			} else if pr.Mode == "cut" {
+				cut(x, pr)
 			} else {
 				resume(x, pr)
 			}
@@ -246,6 +248,72 @@ func resume(x *explore.X, pr params) {
 	x.Outcome(strings.Join(got, ","))
 }
 
+// cut: the connection of a persistent subscriber is lost at the very moment a window slot becomes free (its final
+// acknowledgement and the loss race), while two more messages of the same publisher wait in the session's queue. After
+// the resume the first arrivals of the messages keep the publishing order, whichever way the dequeuer, the processor
+// and the loss were interleaved.
+func cut(x *explore.X, pr params) {
+	q := packet.QOS(1 + vrt.Choose(2, "sub-qos"))
+	vrt.Quiet(true)
+	w := env.NewWorld(x, func(m *broker.MemoryBackend) { m.ClientInflightMessages = pr.Window; m.SessionQueueSize = 32 })
+	s := w.NewClient("s")
+	s.NoAck = true
+	s.Connect(false, nil)
+	s.Send(env.Subscribe(1, packet.Subscription{Topic: "t", QOS: q}))
+	h := w.NewClient("h")
+	h.Connect(true, nil)
+	w.Run(s, h)
+	n := pr.Window + 2
+	idx := map[string]int{}
+	for i := 0; i < n; i++ {
+		tag := fmt.Sprintf("m%d", i)
+		idx[tag] = i
+		h.Pub("t", tag, q, false)
+		w.Run(s, h)
+	}
+	if len(s.Got) != pr.Window {
+		x.Failf("setup", "window-not-filled", "expected %d deliveries before the cut, got %d", pr.Window, len(s.Got))
+		return
+	}
+	if q == 2 {
+		s.Send(env.Pubrec(s.Got[0].ID))
+		w.Run(s, h)
+	}
+	vrt.Quiet(false)
+	if q == 1 {
+		s.Send(env.Puback(s.Got[0].ID))
+	} else {
+		s.Send(env.Pubcomp(s.Got[0].ID))
+	}
+	s.Drop()
+	w.Settle()
+	vrt.Quiet(true)
+	s2 := w.NewClient("s")
+	s2.Connect(false, nil)
+	w.Run(s2, h)
+	var order []string
+	seen := map[string]bool{}
+	for _, d := range append(append([]env.Delivery{}, s.Got...), s2.Got...) {
+		if !seen[d.Payload] {
+			seen[d.Payload] = true
+			order = append(order, d.Payload)
+		}
+	}
+	pos := -1
+	for _, tag := range order {
+		if idx[tag] < pos {
+			x.Failf("per-publisher-order", fmt.Sprintf("reordered-across-cut:q%d:w%d", q, pr.Window), "one publisher sent m0..m%d at QoS %d; the persistent subscriber (cut while a window slot became free, then resumed) first saw them as %v", n-1, q, order)
+			break
+		}
+		pos = idx[tag]
+	}
+	x.Logf("qos %d window %d: first arrivals %v", q, pr.Window, order)
+	if len(s2.Got) >= 2 {
+		x.Note("multi-after-resume")
+	}
+	x.Outcome(strings.Join(order, ","))
+}
+
 func run(r *report.Report) {
 	r.Assume("2 publishers x 2-3 numbered messages (QoS patterns 000,111,222,121,202) and 2 subscribers with granted QoS 2 and 1, all autonomous threads that acknowledge as they read; windows 1-2 (quantifier: up to 8 publishers, 4 subscribers, window 10)",
 		"order is compared per (publisher, published QoS, received QoS); retransmission order is compared with the order of the original transmission",
@@ -260,11 +328,13 @@ func run(r *report.Report) {
 	}
 	cfgs := []c{{"resume-w2", params{Mode: "resume", Window: 2}, 2}, {"resume-w3", params{Mode: "resume", Window: 3}, 2},
 		{"live-w1", params{Mode: "live", Window: 1, Msgs: 2}, 1}, {"live-w2", params{Mode: "live", Window: 2, Msgs: 3}, 1},
-		{"live-w1-full-queue", params{Mode: "live", Window: 1, Msgs: 3, Queue: 1}, 1}}
+		{"live-w1-full-queue", params{Mode: "live", Window: 1, Msgs: 3, Queue: 1}, 1},
+		{"cut-w1", params{Mode: "cut", Window: 1}, 2}, {"cut-w2", params{Mode: "cut", Window: 2}, 2}}
 	if th {
 		cfgs = []c{{"resume-w2", params{Mode: "resume", Window: 2}, 4}, {"resume-w3", params{Mode: "resume", Window: 3}, 3}, {"resume-w4", params{Mode: "resume", Window: 4}, 3},
 			{"live-w1", params{Mode: "live", Window: 1, Msgs: 3}, 2}, {"live-w2", params{Mode: "live", Window: 2, Msgs: 3}, 2},
-			{"live-w1-full-queue", params{Mode: "live", Window: 1, Msgs: 3, Queue: 1}, 2}}
+			{"live-w1-full-queue", params{Mode: "live", Window: 1, Msgs: 3, Queue: 1}, 2},
+			{"cut-w1", params{Mode: "cut", Window: 1}, 4}, {"cut-w2", params{Mode: "cut", Window: 2}, 3}, {"cut-w3", params{Mode: "cut", Window: 3}, 3}}
 	}
 	// client library: inbound messages reach the callback in arrival order; service commands are executed first-in first-out
 	d10, d17 := 6, 5
@@ -301,7 +371,10 @@ func run(r *report.Report) {
 		if cf.p.Mode == "resume" {
 			tag = "multi-retransmission"
 		}
+		if cf.p.Mode == "cut" {
+			tag = "multi-after-resume"
+		}
 		r.AddExploration(cf.name, mode, fmt.Sprintf("mode %s, window %d, session queue capacity %d (0 = 32), delay/map-order bound %d", cf.p.Mode, cf.p.Window, cf.p.Queue, cf.bound), st,
-			"live: every schedule of the publish/deliver/acknowledge race within the bound (non-trivial = executions); resume: every map order / schedule of the retransmission phase (non-trivial = executions with >= 2 retransmitted packets)", tag)
+			"live: every schedule of the publish/deliver/acknowledge race within the bound (non-trivial = executions); resume: every map order / schedule of the retransmission phase (non-trivial = executions with >= 2 retransmitted packets); cut: every schedule / select choice of {final acknowledgement, connection loss, dequeuer} within the bound with window+2 messages published, order of first arrivals judged after the resume (non-trivial = executions with >= 2 deliveries after the resume)", tag)
 	}
 }
